@@ -109,10 +109,19 @@ def _multi_entity(ctx, p):
             inst.zone_status[n] = (r4.build_group_status(n, 1, 0, 15 + 5 * n, 0, 0, 22, 0, 0, 0) if g.n == 4
                                    else r5.build_zone_status(n, 1, 0, 15 + 5 * n, 0xFF, 0, 0x7FF, 0, 0))
         n0 = len(log)
-        con.push(con.zone_status_frame(pid=0x62))
+        # the frame also names a zone the client does not know (no name, no owner), at a solver-chosen place among the others
+        unknown = (r4.build_group_status(9, 1, 0, 40, 0, 0, 22, 0, 0, 0) if g.n == 4 else r5.build_zone_status(9, 1, 0, 40, 0xFF, 0, 0x7FF, 0, 0))
+        recs = [list(inst.zone_status[n]) for n in range(4)]
+        at = ctx.choice("unknown_zone_at", 6)        # 0..4: position in the frame, 5: not there
+        if at < 5:
+            recs.insert(at, list(unknown))
+        flat = [b for r in recs for b in r]
+        from ref import framing
+        con.push(con.frame(0x2B, flat, 0x62) if g.n == 4 else con.frame(0xC0, framing.c0(0x21, [], len(recs[0]), len(recs), flat), 0x62))
         rig.run(rig.loop.vt_now() + 1.0)
         calls = [c for c in log[n0:] if c[0] != "raiser"]
         ctx.observe("zone_calls", len(calls))
+        detail = dict(detail, unknown_zone_at=at)
         for n in range(4):
             ctx.check(calls.count((f"zone{n}", n)) == 1, "raiser_does_not_starve", detail=dict(detail, zone=n, calls=calls))
             ctx.check(zones[n].current_damper_percentage == 15 + 5 * n, "raiser_does_not_starve",
